@@ -106,7 +106,7 @@ func Classify(c Case) (bool, interface{}, []string) {
 			}
 		case "sep":
 			sep = true
-		case "appendnew":
+		case "appendnew", "zerorow":
 			classes = append(classes, "zero-cell-row")
 			nt = true
 		case "rowitems":
